@@ -398,7 +398,9 @@ fn block_coordinate_descent<'a, F: Float>(
 // Algorithm based off of this post: https://math.stackexchange.com/questions/2045579/deriving-block-soft-threshold-from-l-2-norm-prox-operator
 fn block_soft_thresholding<F: Float>(x: ArrayView1<F>, threshold: F) -> Array1<F> {
     let norm_x = x.dot(&x).sqrt();
-    if norm_x < threshold {
+    // `<=` also covers a zero vector with a zero threshold (ridge / unpenalised multi-task fit whose
+    // feature is exactly orthogonal to the residual), where `threshold / norm_x` would be 0 / 0
+    if norm_x <= threshold {
         return Array1::<F>::zeros(x.len());
     }
     let scale = F::one() - threshold / norm_x;
